@@ -32,6 +32,7 @@ pub fn check_framing(out: &mut Out, case: &Case, case_sx: &Sx, raw: &[(Res, Vec<
                 }
             }
             Res::Io(_) => {}
+            Res::Panicked => out.fail("the formatter panicked".into(), case_sx),
         }
     }
 }
@@ -39,7 +40,7 @@ pub fn check_framing(out: &mut Out, case: &Case, case_sx: &Sx, raw: &[(Res, Vec<
 pub fn classify(out: &mut Out, case: &Case, raw: &[(Res, Vec<u8>)]) -> bool {
     let mut nontrivial = false;
     for (call, (res, bytes)) in case.calls.iter().zip(raw) {
-        out.count(match res { Res::Ok => "result_ok", Res::Validation(_) => "result_validation", Res::Io(_) => "result_io" });
+        out.count(match res { Res::Ok => "result_ok", Res::Validation(_) => "result_validation", Res::Io(_) => "result_io", Res::Panicked => "result_panic" });
         out.add("lines", bytes.iter().filter(|&&b| b == b'\n').count() as u64);
         if call.rate_exp.is_some() { out.count("sampled"); }
         for it in &call.items {
